@@ -295,7 +295,7 @@ func ParseTemplateSource(src []byte, format ast.Format, imported, noParseShow bo
 			text = ast.NewText(tok.pos, tok.txt, ast.Cut{})
 		}
 
-		if line < tok.lin || tok.pos.End == lastIndex {
+		if line < tok.lin || tok.typ == tokenText && tok.pos.End == lastIndex {
 			if p.cutSpacesToken && numTokenInLine == 1 {
 				cutSpaces(firstText, text)
 			}
